@@ -240,7 +240,9 @@ def projection_handlers(model, ctx, cls, vs):
                 continue
             fx = Facts(fa, c)
             for k in LITERAL_KINDS:
-                if fx.isinstance_of(V, {k}):
+                # (a test made on the value as written selects the handler too: that it should have been made on the
+                # visited value is C14.R2's finding, not a vanished handler)
+                if fx.isinstance_of(V, {k}) or fx.isinstance_of(("attr", nodep, "value"), {k}):
                     out[k] = (_delegate(model, cls, h), c)
         elif isinstance(f, _ast.Call) and isinstance(f.func, _ast.Name) and f.func.id == "getattr" and len(f.args) == 2:
             if strip_sites(fa.term_of(f.args[0])) != ("param", vs.pos_params[0]) or strip_sites(fa.term_of(c.args[0])) != V:
